@@ -224,7 +224,7 @@ def run(pid, tier, modname=None):
         build.ensure(v)
     if hasattr(mod, "prepare"):
         mod.prepare(tier)
-    n = mod.N[tier]
+    n = int(os.environ.get("VERIF_N") or mod.N[tier])   # VERIF_N: development override only
     nw = min(NWORK, max(1, n // 4))
     per = (n + nw - 1) // nw
     rdir = os.path.join(build.BUILD, "run", pid)
